@@ -1257,6 +1257,22 @@ class Crate:
                 if want and have != want and any(b.local_ty(l) == s2[l - 1] for s2 in sig_alts) and want not in used:
                     b.var_names[l] = want
                     used.add(want)
+            # reordered parameters: a reviewed name that is still missing goes to the one parameter of its type that has no reviewed
+            # name yet (same multiset of parameter types as in the reviewed tree)
+            for s2 in sig_alts:
+                cur_tys = [b.local_ty(l) for l in range(1, b.argc + 1)]
+                if sorted(cur_tys) != sorted(s2[:-2]):
+                    continue
+                have_names = {b.var_names.get(l) for l in range(1, b.argc + 1)}
+                for want, wty in zip(names, s2[:-2]):
+                    if not want or want in have_names:
+                        continue
+                    free_l = [l for l in range(1, b.argc + 1) if cur_tys[l - 1] == wty and b.var_names.get(l) not in names]
+                    missing_same_ty = [w for w, t in zip(names, s2[:-2]) if t == wty and w and w not in have_names]
+                    if len(free_l) == 1 and len(missing_same_ty) == 1 and want not in set(b.var_names.values()):
+                        b.var_names[free_l[0]] = want
+                        have_names.add(want)
+                break
 
     def _link_closures(self):
         for b in self.bodies.values():
